@@ -51,7 +51,7 @@ def min_dist(poly, p):
 def run(ctx):
     from shapepy import EmptyShape, WholeShape, Primitive, JordanCurve, SimpleShape
     rng, drv = ctx.rng, ctx.drv
-    n = 24 if ctx.quick else 800
+    n = 24 if ctx.quick else 300
     for it in range(n):
         kind = shapes.DEFINED[it % len(shapes.DEFINED)]
         S, d = shapes.make(rng, kind, rng.randint(-3, 3), rng.randint(-3, 3), drv)
@@ -79,10 +79,10 @@ def run(ctx):
                 special.append((a[0] + t * (b[0] - a[0]), a[1] + t * (b[1] - a[1])))   # exactly on the edge
                 mid = ((a[0] + b[0]) / 2, (a[1] + b[1]) / 2)
                 L = math.sqrt(float((b[0] - a[0]) ** 2 + (b[1] - a[1]) ** 2))
-                off = F(1, 1000)
                 nx, ny = -(b[1] - a[1]) / F(L).limit_denominator(1000), (b[0] - a[0]) / F(L).limit_denominator(1000)
-                special.append((mid[0] + off * nx, mid[1] + off * ny))
-                special.append((mid[0] - off * nx, mid[1] - off * ny))
+                for off in (F(1, 1000), F(1, 10000), F(1, 100000)):      # 1e-3 … 1e-5 from the edge: far outside the 1e-6 boundary band
+                    special.append((mid[0] + off * nx, mid[1] + off * ny))
+                    special.append((mid[0] - off * nx, mid[1] - off * ny))
         special.append((F(1000), F(777)))
         for p in cells + special:
             onb = drv.ask(f"onb {tok} {core.ept(p)}") == "T"
